@@ -130,7 +130,7 @@ Definition gate_step (argcopy : bool) (mode : nat) (h : heap) (g : val) : option
            | Some (h2, c') =>
              match (if argcopy then dcopy FUEL h2 (fld h g 3) else Some (h2, fld h g 3)) with
              | None => None
-             | Some (h3, a') => Some (alloc h3 [fld h g 0; t'; c'; a'; Tok 0; fld h g 5])
+             | Some (h3, a') => Some (alloc h3 [Tok (tokn (fld h g 0)); t'; c'; a'; Tok 0; Tok (tokn (fld h g 5))])
              end
            end
          end
@@ -167,7 +167,7 @@ Definition op_pass (in_copy final share_io argcopy : bool) (d : nat) (modes : li
       | Some (h4, ins) =>
         match opt_copy (negb share_io) h4 (fld h qc 4) with
         | None => None
-        | Some (h5, outs) => Some (alloc h5 [gl'; fld h qc 1; fld h qc 2; ins; outs])
+        | Some (h5, outs) => Some (alloc h5 [gl'; Tok (tokn (fld h qc 1)); Tok (tokn (fld h qc 2)); ins; outs])
         end
       end
     end
@@ -219,7 +219,7 @@ Record sim := mkSim { s_qc : val; s_dm : bool; s_cbits : val; s_dirty : nat }.
 
 Definition is_nil {A} (l : list A) : bool := match l with [] => true | _ => false end.
 
-(* `if cbits and len(cbits) == self.qc.num_cbits` *)
+(* `if cbits and len(cbits) == self.qc.num_cbits`; a copy is a new list of the same ints *)
 Definition usable (h : heap) (qc cb : val) : bool :=
   match cb with
   | Ref l => match nth_error h l with
@@ -230,7 +230,7 @@ Definition usable (h : heap) (qc cb : val) : bool :=
   end.
 
 Definition init_cbits (cc : bool) (h : heap) (qc cb : val) : heap * val :=
-  if usable h qc cb then (if cc then alloc h (objof h cb) else (h, cb))
+  if usable h qc cb then (if cc then alloc h (map (fun v => Tok (tokn v)) (objof h cb)) else (h, cb))
   else match tokn (fld h qc 2) with
        | S n => alloc h (repeat (Tok 0) (S n))
        | 0 => (h, Tok 0)
